@@ -784,6 +784,8 @@ class VExec(Exec):
         fi = self.repo.func(con.func)
         self.lemma = con
         self.site_ord = {}
+        if getattr(con, 'pre_verify', None) is not None:
+            con.pre_verify(self)        # a lemma borrowed from another property's cone is verified with that cone's model tables
 
         def run_once():
             self.reset_path()
